@@ -182,6 +182,48 @@ func TestC01(t *testing.T) {
 				}
 			}
 		}
+		// contention rounds: a handful of operations on one fresh key released at the same instant
+		for round := 0; round < envInt("VERIF_CONTENTION", 60); round++ {
+			key := fmt.Sprintf("x%d-%d", ci, round)
+			rec := NewRecorder()
+			if rng.Intn(4) > 0 {
+				rec.Run("c01", []Script{{Client: "init", Path: paths[rng.Intn(len(paths))], Steps: []Step{{Op: "put", Key: key, Val: "v0." + key}}}}, nil)
+			}
+			var scripts []Script
+			nc := 3 + rng.Intn(3)
+			for ci2 := 0; ci2 < nc; ci2++ {
+				p := paths[rng.Intn(len(paths))]
+				st := Step{Key: key}
+				switch x := rng.Intn(100); {
+				case x < 25:
+					st.Op = "del"
+				case x < 50:
+					st.Op, st.Val, st.Opts = "put", fmt.Sprintf("x%d.%s", ci2, key), PutOpts{XX: true}
+				case x < 70:
+					st.Op, st.Val, st.Opts = "put", fmt.Sprintf("n%d.%s", ci2, key), PutOpts{NX: true}
+				case x < 85:
+					st.Op, st.Val = "put", fmt.Sprintf("p%d.%s", ci2, key)
+				default:
+					st.Op = "get"
+				}
+				sum.Evaluations++
+				scripts = append(scripts, Script{Client: fmt.Sprintf("c%d", ci2), Path: p, Steps: []Step{st}})
+			}
+			rec.RunBarrier("c01", scripts)
+			rec.Run("c01", []Script{{Client: "fin", Path: paths[rng.Intn(len(paths))], Steps: []Step{{Op: "get", Key: key}}}}, nil)
+			hs := rec.Split()
+			Emit(w, hs, &seq, trace.Ev{"cfg": cfg.String(), "contention": true})
+			for _, h := range hs {
+				sum.Histories++
+				if h.Overlap {
+					sig := fmt.Sprintf("%v", h.Events)
+					if !seen[sig] {
+						seen[sig] = true
+						sum.DistinctNontrivial++
+					}
+				}
+			}
+		}
 		for _, p := range paths {
 			p.Close()
 		}
